@@ -97,6 +97,18 @@ structure RRoute where
   errorCodes : List Nat
   deriving Repr, Inhabited
 
+/-- `definitions.ConvertToHttpStatus`: decimal text below 2^32 that is one of the known status codes -/
+def statusOk (v : String) : Bool :=
+  match v.toNat? with
+  | some n => n < 4294967296 && validStatusCodes.contains n
+  | none => false
+
+/-- `GetErrorResponses` / `GetResponseStatusCodeAndDescription` return an ERROR (the validators only warn) for an
+    `@ErrorResponse` - any of them - or a first `@Response` with a non-empty value that is no status code -/
+def statusCodesOk (meth : List Annot) : Bool :=
+  (getAll meth "ErrorResponse").all (fun a => statusOk a.value) &&
+  (match getFirst meth "Response" with | some a => a.value.isEmpty || statusOk a.value | none => true)
+
 def reduceRoute (parent : Security) (m : Method) : Option RRoute :=
   let ps := m.params.map (reduceParam m.annots)
   if ps.any Option.isNone then none else
@@ -117,6 +129,8 @@ structure RController where
 def reduceController (name : String) (ctrl : List Annot) (d : Option SecComp) (ms : List Method) : Option RController :=
   let sec := controllerSecurity ctrl d
   let rs := ms.map (reduceRoute sec)
+  -- a route whose status codes the reducer cannot convert makes the reduction of the whole controller fail
+  if ms.any (fun m => !statusCodesOk m.annots) then none else
   if rs.any Option.isNone then none else
   some { name := name, tag := firstValueOrEmpty ctrl "Tag", path := firstValueOrEmpty ctrl "Route", security := sec, routes := rs.filterMap id }
 
